@@ -37,10 +37,21 @@ fn test(c: &Case, st: &mut Stats) -> TestResult {
     st.eval();
     let origin = agentsim::process_origin();
     let h = &c.h;
-    let base = guard(|| agentsim::record_run(h, origin, 0, None)).map_err(|p| Fail::new("c20-panic", p))?;
+    macro_rules! settled {
+        ($e:expr) => {
+            match $e {
+                Some(r) => r,
+                None => {
+                    st.class("agent does not settle at one instant (C05's business, not judged)");
+                    return Ok(());
+                }
+            }
+        };
+    }
+    let (base, base_clock) = settled!(guard(|| agentsim::record_run_clock(h, origin, 0, None, None)).map_err(|p| Fail::new("c20-panic", p))?);
     // (1) every instant shifted by a constant: identical replies, instants relative to the shifted origin
     let shifted_origin = origin + Duration::from_millis(c.shift_ms);
-    let shifted = guard(|| agentsim::record_run(h, shifted_origin, 0, None)).map_err(|p| Fail::new("c20-panic", p))?;
+    let shifted = settled!(guard(|| agentsim::record_run(h, shifted_origin, 0, None)).map_err(|p| Fail::new("c20-panic", p))?);
     if let Some((i, a, b)) = first_diff(&base, &shifted) {
         return Err(Fail::new(
             "c20-time-shift",
@@ -55,14 +66,14 @@ fn test(c: &Case, st: &mut Stats) -> TestResult {
         ));
     }
     // (2) unchanged replay in another instance, alongside unrelated agents, on another thread
-    let again = guard(|| agentsim::record_run(h, origin, 0, None)).map_err(|p| Fail::new("c20-panic", p))?;
+    let again = settled!(guard(|| agentsim::record_run(h, origin, 0, None)).map_err(|p| Fail::new("c20-panic", p))?);
     if let Some((i, a, b)) = first_diff(&base, &again) {
         return Err(Fail::new(
             "c20-replay",
             format!("replaying the history in a second agent instance changes the replies at step {} ({:?}): '{}' vs '{}'", i, h.ops.get(i), a, b),
         ));
     }
-    let with_others = guard(|| agentsim::record_run(h, origin, c.other_agents, None)).map_err(|p| Fail::new("c20-panic", p))?;
+    let with_others = settled!(guard(|| agentsim::record_run(h, origin, c.other_agents, None)).map_err(|p| Fail::new("c20-panic", p))?);
     if let Some((i, a, b)) = first_diff(&base, &with_others) {
         return Err(Fail::new(
             "c20-other-agents",
@@ -82,25 +93,31 @@ fn test(c: &Case, st: &mut Stats) -> TestResult {
             .unwrap_or_else(|_| Err("thread panicked".into()))
     })
     .map_err(|p| Fail::new("c20-panic", p))?;
+    let threaded = settled!(threaded);
     if let Some((i, a, b)) = first_diff(&base, &threaded) {
         return Err(Fail::new(
             "c20-thread",
             format!("replaying the history on another thread changes the replies at step {} ({:?}): '{}' vs '{}'", i, h.ops.get(i), a, b),
         ));
     }
-    // (3) non-interference: the focus transaction's timeline with and without the other transactions
-    let focus_id = POOL_IDS[c.focus as usize % POOL_IDS.len()];
+    // (3) instants passed to other transactions' calls do not leak into the focus transaction's
+    // schedule: the same history, but every send of another transaction is given an instant moved by
+    // `skew` ms (poll instants and the focus transaction's own calls unchanged)
+    let focus = c.focus % POOL_IDS.len() as u8;
+    let focus_id = POOL_IDS[focus as usize];
     let needle = format!("id={:x} ", focus_id);
-    let alone = guard(|| agentsim::record_run(h, origin, 0, Some(c.focus % POOL_IDS.len() as u8))).map_err(|p| Fail::new("c20-panic", p))?;
+    let skew_ms = 1 + c.shift_ms % 5000;
+    let (skewed, _) = settled!(guard(|| agentsim::record_run_clock(h, origin, 0, Some((focus, skew_ms)), Some(&base_clock))).map_err(|p| Fail::new("c20-panic", p))?);
     let project = |r: &Vec<Vec<String>>| -> Vec<Vec<String>> { r.iter().map(|step| step.iter().filter(|l| l.starts_with(&needle)).cloned().collect()).collect() };
-    let pa = project(&alone);
+    let pa = project(&skewed);
     let pb = project(&base);
     if let Some((i, a, b)) = first_diff(&pa, &pb) {
         return Err(Fail::new(
-            "c20-interference",
+            "c20-instant-leak",
             format!(
-                "the timeline of transaction {:x} differs when the other transactions' calls are interleaved (same poll instants): step {} ({:?}): alone '{}' vs interleaved '{}'",
+                "the timeline of transaction {:x} changes when the instants passed to the OTHER transactions' send calls are moved by {} ms (same poll instants): step {} ({:?}): '{}' vs '{}'",
                 focus_id,
+                skew_ms,
                 i,
                 h.ops.get(i),
                 a,
@@ -130,7 +147,7 @@ fn test(c: &Case, st: &mut Stats) -> TestResult {
 pub fn run(ctx: &Ctx) -> EvidenceMeta {
     ctx.proptest(
         "metamorphic-replay",
-        ctx.n(2_000, 100_000),
+        ctx.n(6_000, 250_000),
         || {
             (
                 agentsim::history_strategy(Profile::Lifecycle, 50),
@@ -157,9 +174,8 @@ pub fn run(ctx: &Ctx) -> EvidenceMeta {
         rule: "histories as in C05 in which every poll is a drain (so the state after each step does not depend on map order); replies are \
                recorded per step as sorted multisets with instants relative to the origin. Metamorphic oracles between executions of the \
                real code: (1) origin shifted by 0..=10^9 ms -> identical records; (2) second agent instance, 0..8 unrelated agents created and \
-               polled in between, and a spawned thread -> identical records; (3) the same history restricted to one transaction (other \
-               transactions' calls removed, same poll instants, credentials calls kept) -> identical projected timeline of that \
-               transaction. Non-trivial = history with >= 1 retransmission and >= 1 WaitUntil compared; distinct by (history, shift)."
+               polled in between, and a spawned thread -> identical records; (3) the same history with the instants passed to the OTHER transactions' send calls moved by 1..5000 ms (same poll \
+               instants) -> identical projected timeline of the focus transaction. Non-trivial = history with >= 1 retransmission and >= 1 WaitUntil compared; distinct by (history, shift)."
             .into(),
         assumptions: vec![
             "'another thread' is one spawned thread per replay; the agent is single-owner (&mut self), there is no interleaving to explore".into(),
